@@ -18,7 +18,7 @@ use rosu_map::{
 use rosu_pp::model::hit_object::HitObjectKind;
 
 use crate::{
-    common::{decode, guarded, resource_maps, show_long, Run},
+    common::{decode, guarded, random_settings, resource_maps, show_long, truncate_objects, Run},
     rng::Rng,
 };
 
@@ -598,6 +598,128 @@ fn cases_of_map(text: &str, mode: u8, limit: usize) -> Vec<Case> {
         .collect()
 }
 
+fn h32(x: f32) -> String {
+    format!("{:x}", x.to_bits())
+}
+
+fn h64(x: f64) -> String {
+    format!("{:x}", x.to_bits())
+}
+
+/// One `PIPE catchcurve` line: the real catch `Difficulty::calculate` vs the composed model in which
+/// `path.dist()` and every nested x position come from `Model/Curve.lean` (the line carries the
+/// decoded control points and expected distance instead of the curve's outputs).
+fn pipe_catch_curve(run: &mut Run, id: &str, text: &str, rng: &mut Rng) {
+    use rosu_pp::catch::{verif as cv, Catch};
+    let Ok(map) = decode(text) else {
+        run.count("curvepipe:skipped:undecodable");
+        return;
+    };
+    let settings = random_settings(rng, 2);
+    let mut d = settings.build(2);
+    if rng.chance(1, 3) {
+        d = d.passed_objects(rng.below(40) as u32);
+    }
+    let (m2, d2) = (map.clone(), d.clone());
+    let inputs = match guarded(move || cv::pipeline_inputs(&d2, &m2)) {
+        Ok(Ok(i)) => i,
+        Ok(Err(_)) => {
+            run.count("curvepipe:skipped:not-convertible");
+            return;
+        }
+        Err(e) => {
+            run.fail("oracle:catch-pipeline-inputs-panic", "", id, e, text.to_owned());
+            return;
+        }
+    };
+    let (m3, d3) = (map.clone(), d.clone());
+    let attrs = match guarded(move || d3.calculate_for_mode::<Catch>(&m3)) {
+        Ok(Ok(a)) => a,
+        Ok(Err(_)) => return,
+        Err(e) => {
+            run.fail("oracle:catch-calculate-panic", "", id, e, text.to_owned());
+            return;
+        }
+    };
+    if inputs.steps.len() != map.hit_objects.len() {
+        run.count("curvepipe:skipped:step-count-mismatch");
+        return;
+    }
+    let mut objs: Vec<String> = Vec::with_capacity(inputs.steps.len());
+    let mut n_sliders = 0u64;
+    for ((s, sl), h) in inputs.steps.iter().zip(inputs.sliders.iter()).zip(map.hit_objects.iter()) {
+        match (s.kind, sl, &h.kind) {
+            (0, _, _) => objs.push(format!("f:{}:{}", h32(s.x), h64(s.start_time))),
+            (2, _, _) => objs.push(format!("b:{}", s.n_bananas)),
+            (1, Some(i), HitObjectKind::Slider(sld)) => {
+                n_sliders += 1;
+                let cps: Vec<String> = sld.control_points.iter().map(|p| format!("{}~{}~{}", h32(p.pos.x), h32(p.pos.y), letter_of(p.path_type))).collect();
+                objs.push(format!(
+                    "S:{}:{}:{}:{}:{}:{}:{}:{}:{}",
+                    h32(s.x),
+                    h32(s.last_control_x),
+                    i.start_time.to_bits(),
+                    i.beat_len.to_bits(),
+                    i.slider_velocity.to_bits(),
+                    u8::from(i.generate_ticks),
+                    i.span_count,
+                    sld.expected_dist.map_or("-".to_owned(), h64),
+                    if cps.is_empty() { "-".to_owned() } else { cps.join(",") }
+                ));
+            }
+            _ => {
+                run.count("curvepipe:skipped:kind-mismatch");
+                return;
+            }
+        }
+    }
+    run.count("curvepipe:lines");
+    run.count_n("curvepipe:sliders", n_sliders);
+    run.count(&format!("curvepipe:stars:{}", if attrs.stars == 0.0 { "0" } else { ">0" }));
+    run.repro.insert(id.to_owned(), text.to_owned());
+    run.line(
+        id,
+        format!(
+            "PIPE catchcurve {} {} {} {} {} {} {} {} {} {} - {}",
+            inputs.version,
+            inputs.slider_multiplier.to_bits(),
+            inputs.slider_tick_rate.to_bits(),
+            u8::from(inputs.hr_offsets),
+            u8::from(inputs.reflect_horizontally),
+            h32(inputs.cs),
+            h64(inputs.ar),
+            h64(inputs.clock_rate),
+            u8::from(inputs.is_convert),
+            if inputs.take == usize::MAX { "-".to_owned() } else { inputs.take.to_string() },
+            if objs.is_empty() { "-".to_owned() } else { objs.join(";") }
+        ),
+        format!("{} {} {} {} {} {}", h64(attrs.stars), h64(attrs.ar), attrs.n_fruits, attrs.n_droplets, attrs.n_tiny_droplets, u8::from(attrs.is_convert)),
+    );
+    run.eval((n_sliders > 0).then_some(id));
+}
+
+fn pipe_lines(run: &mut Run, thorough: bool, rng: &mut Rng, want: &dyn Fn(&str) -> bool) {
+    let n_maps = if thorough { 1500 } else { 150 };
+    for i in 0..n_maps {
+        let id = format!("curve:pipe:{i}");
+        let version = *rng.pick(&[5u32, 7, 9, 14, 14, 128]);
+        let mode = *rng.pick(&[2u8, 2, 0]);
+        let text = slider_map_text(rng, version, mode, 10);
+        if want(&id) {
+            pipe_catch_curve(run, &id, &text, rng);
+        }
+    }
+    for (mode, text) in resource_maps() {
+        if mode == 0 || mode == 2 {
+            let id = format!("curve:pipe:res:{mode}");
+            let t = if thorough { text.clone() } else { truncate_objects(&text, 150) };
+            if want(&id) {
+                pipe_catch_curve(run, &id, &t, rng);
+            }
+        }
+    }
+}
+
 pub fn run(run: &mut Run, tier: &str, seed: u64, only: Option<&str>) {
     if only.is_some_and(|o| !o.starts_with("curve")) {
         return;
@@ -689,6 +811,10 @@ pub fn run(run: &mut Run, tier: &str, seed: u64, only: Option<&str>) {
         if alive && want(&id) {
             alive = curves_line(run, &id, mode, &cases);
         }
+    }
+    // 6. the catch pipeline with the curve inside the model (PIPE catchcurve lines)
+    if alive {
+        pipe_lines(run, thorough, &mut rng, &want);
     }
     if !alive {
         run.notes.push("curve lines stopped after a hang of the real code".to_owned());
